@@ -189,6 +189,9 @@ func runC14(r *vc.Run, replay string) {
 		c14Run(r, w, ch, ctl, rst, rnd)
 		c14Quiesce(r, ch, ctl, "after-rst", true)
 	}
+	if ch.Alive() {
+		c14Stale(r, w, ch, ctl)
+	}
 	<-stormDone
 	c14TwoSessions(r, w)
 	if txt, inSeata, found := ch.PanicInfo(); found {
@@ -629,6 +632,84 @@ func c14Quiesce(r *vc.Run, ch *vc.Child, ctl *c14Ctl, after string, strict bool)
 	if !strict && len(st.Pending) > 0 {
 		// the concurrent drop scenario legitimately has requests in flight; judged strictly at the end
 		r.Count("pending_futures_seen_mid_run", int64(len(st.Pending)))
+	}
+}
+
+// c14Stale: requests refused because their session has already gone. A session-open listener (public API) keeps the
+// send function of each session; the coordinator resets the sessions one after the other, the client reconnects, and
+// the kept functions are then used, those of the lost sessions included. Such a request is abandoned at once: it
+// must leave no future behind.
+func c14Stale(r *vc.Run, w *world.World, ch *vc.Child, ctl *c14Ctl) {
+	if err := ch.Call("rpc_listen", nil, nil); err != nil {
+		r.Inconc("rpc_listen: " + err.Error())
+		return
+	}
+	for round := 0; round < 3; round++ {
+		for _, s := range w.TC.Sessions() {
+			if !s.Closed() {
+				s.Kill(true)
+			}
+		}
+		// the client reconnects; requests made while it has no session may fail, none is made here
+		if w.TC.WaitSession("", 20*time.Second) == nil || !ch.Alive() {
+			r.Inconc(fmt.Sprintf("stale sends: the client did not reconnect after reset %d", round))
+			return
+		}
+		time.Sleep(300 * time.Millisecond)
+	}
+	var before c14State
+	if err := ch.Call("rpc_state", nil, &before); err != nil {
+		r.Inconc("rpc_state before the stale sends: " + err.Error())
+		return
+	}
+	var calls []c14Call
+	if err := ch.Call("rpc_send_stale", map[string]interface{}{"times": 3}, &calls); err != nil {
+		r.Inconc("rpc_send_stale: " + err.Error())
+		return
+	}
+	refused, accepted := 0, 0
+	for _, c := range calls {
+		feat := map[string]string{"script": "stale-send"}
+		switch {
+		case c.Panic != "":
+			r.Case("stale-send|panic", c)
+			r.Violate(&vc.Violation{Clause: "caller-panic", Shape: "stale-send|panic", Features: feat, Detail: "sending on a session that has gone panicked: " + clipStr(c.Panic, 300), Case: c})
+		case c.Err != "":
+			refused++
+			r.Case("stale-send|refused", c)
+		default:
+			accepted++
+			r.Case("stale-send|written", c)
+		}
+	}
+	r.Count("stale_sends_refused", int64(refused))
+	r.Count("stale_sends_written", int64(accepted))
+	if refused == 0 {
+		r.Inconc("stale sends: no request was refused for a closed session (the listener saw no session that was lost)")
+		return
+	}
+	c14Quiesce(r, ch, ctl, "stale-sends", false)
+	var after c14State
+	if err := ch.Call("rpc_state", nil, &after); err != nil {
+		r.Inconc("rpc_state after the stale sends: " + err.Error())
+		return
+	}
+	was := map[int32]bool{}
+	for _, id := range before.Pending {
+		was[id] = true
+	}
+	var left []int32
+	for _, id := range after.Pending {
+		if !was[id] {
+			left = append(left, id)
+		}
+	}
+	r.Case("stale-send|bookkeeping", map[string]interface{}{"pending_before": before.Pending, "pending_after": after.Pending})
+	// a written one-way request keeps its future until it is answered or timed out (20 s): at most one each
+	if len(left) > accepted {
+		r.Violate(&vc.Violation{Clause: "bookkeeping-left", Shape: "stale-send", Features: map[string]string{"script": "stale-send"},
+			Detail:  fmt.Sprintf("%d requests were refused because their session had gone and %d were written; afterwards %d new message futures are registered, more than the written requests can account for: ids %v", refused, accepted, len(left), clipI32(left, 20)),
+			History: map[string]interface{}{"sends": calls, "before": before, "after": after}})
 	}
 }
 
